@@ -123,20 +123,22 @@ func vExpectPanic(call string) bool {
 
 // mappers and filters created early keep working when many more component types are
 // registered later (40 types in total: within every build's limit)
-func VerifC20_ManyComponents() {
+func VerifC20_ManyComponents() { vManyComponents(36) }
+
+func vManyComponents(nExtra int) {
 	w := NewWorld(1)
 	u := w.Unsafe()
 	mp := NewMap1[vPos](w)
 	mv := NewMap2[vPos, vVel](w)
 	f := NewFilter1[vPos](w)
-	var extra [36]ID
+	extra := make([]ID, nExtra)
 	for i := range extra {
 		extra[i] = TypeID(w, vNthType(i+1))
 	}
 	x, y := vU32("x"), vU32("y")
 	e0 := mp.NewEntity(&vPos{x, y})
 	// a table created after all registrations, holding one of the late components
-	e1 := u.NewEntity(ComponentID[vPos](w), extra[20], extra[35])
+	e1 := u.NewEntity(ComponentID[vPos](w), extra[20], extra[nExtra-1])
 	*(*vPos)(u.Get(e1, ComponentID[vPos](w))) = vPos{y, x}
 	vcheck("early-mapper-sees-late-table", !vpanics(func() {
 		if mp.Get(e1) == nil || *mp.Get(e1) != (vPos{y, x}) || *mp.Get(e0) != (vPos{x, y}) {
@@ -152,6 +154,6 @@ func VerifC20_ManyComponents() {
 		n++
 	}
 	vcheck("early-filter-iterates-late-tables", n == 2 && !w.IsLocked())
-	vcheck("has-late-component", u.Has(e1, extra[35]) && !u.Has(e0, extra[35]))
+	vcheck("has-late-component", u.Has(e1, extra[nExtra-1]) && !u.Has(e0, extra[nExtra-1]))
 	vreach("end")
 }
